@@ -5,3 +5,6 @@ cd "$(dirname "$0")"
 /venv/bin/python harness/gen_tables.py
 cd lean
 lake build
+cd ..
+# all property modules must load into one environment (no name clashes between slices)
+tools/import_all.sh
